@@ -246,13 +246,18 @@ static std::string join(const json& a, const char* sep)
 }
 
 // name of the asserting function, without schema-specific parts
-static std::string fn_class(const char* fn)
+// (the cursor's own accessors check `(ptr) && ...`, everything else checks
+// `(view(addressof_tag{})) && ...` / `((*this)(addressof_tag{})) && ...`)
+static std::string fn_class(const char* fn, const char* expr)
 {
     std::string f = fn ? fn : "?";
+    const std::string e = expr ? expr : "";
     const std::string suffix = "_entry";
     if(f.size() > suffix.size()
        && f.compare(f.size() - suffix.size(), suffix.size(), suffix) == 0)
         return "entry-ctor";
+    if(e.compare(0, 5, "(ptr)") == 0)
+        return "cursor-" + f;
     return f;
 }
 
@@ -294,7 +299,8 @@ static void fits(const json& v)
                {"ncls", ncls},       {"why", why},    {"at", at},
                {"short", shortb},    {"zf", zf},      {"mode", k_mode},
                {"expected_valid", exp_valid},         {"expected_size", exp_size},
-               {"buf", hex(bytes(all.begin(), all.begin() + std::min(all.size(), total)))}};
+               {"buf", hex(bytes(all.begin(), all.begin() + std::min(all.size(), total)))},
+               {"vector", v}};
     const std::string vkind = view == "group" ? "group" : "message";
 
     if(total > all.size())
@@ -388,7 +394,7 @@ static void fits(const json& v)
         cs["assert_line"] = g_assert_line;
         rep.mismatch(
             "fits/assert/" + (why.empty() ? std::string("valid") : why) + "/"
-                + block + "/" + fn_class(c06::g_assert_fn) + "/" + vkind + "/"
+                + block + "/" + fn_class(c06::g_assert_fn, (const char*)g_assert_expr) + "/" + vkind + "/"
                 + cor,
             std::string("size_bytes_checked is total, yet the assertion handler "
                         "was invoked: ")
@@ -435,7 +441,8 @@ static void fits(const json& v)
     if(got.valid != exp_valid)
     {
         rep.mismatch(
-            "fits/valid/" + vkind + "/" + cor + "/" + ncls,
+            "fits/valid/" + vkind + "/" + cor + "/" + ncls + "/"
+                + (got.valid ? "accepted" : "rejected"),
             std::string("valid = ") + (got.valid ? "true" : "false") + " (size "
                 + std::to_string(got.size) + "), but the structure the buffer describes "
                 + (exp_valid ? "fits in " : "does not fit in ") + std::to_string(n)
